@@ -23,6 +23,9 @@
 (*        window when upstream completes is lost.                                     *)
 (*   "BalanceDrop": balanceHubActor drops an element when no branch has demand        *)
 (*        (reachable when the hub's upstream ignores demand: ParallelMap).            *)
+(*   "ConcatOverlap": FlatMapConcat relies on its upstream honouring its demand of    *)
+(*        one element at a time; directly behind (Ordered)ParallelMap, which pushes,  *)
+(*        several sub-sources run at once and their outputs are reordered.            *)
 EXTENDS Integers, Sequences, FiniteSets, TLC
 
 \* ------------------------------------------------------------------ helpers
@@ -69,6 +72,9 @@ OrderInsensitive(s) == Elementwise(s) \/ s \in {"BFlat2", "BFlat3"}
 HasPar(p) == \E i \in 1..Len(p) : Unordered(p[i])
 HasBatch(p) == \E i \in 1..Len(p) : BatchN(p[i]) # 0
 IgnoresDemand(p) == \E i \in 1..Len(p) : IsPar(p[i]) \/ IsOPar(p[i])
+\* FlatMapConcat directly behind a stage that pushes without demand (defect ConcatOverlap)
+OverlapAt(p, j) == j >= 2 /\ p[j] = "FMC" /\ (IsPar(p[j - 1]) \/ IsOPar(p[j - 1]))
+HasOverlap(p) == \E j \in 1..Len(p) : OverlapAt(p, j)
 
 Each(s, x) ==
   CASE s = "Inc" -> <<x + 1>>
@@ -164,7 +170,8 @@ SrcChoices(c, D) ==
 
 JudgeLinear(c, r, D) ==
   LET p == c.srcs[1].p \o c.post \o c.branches[1]
-  IN \E e \in Outs(p, c.srcs[1].inp, {}, D) : SinkOKD(e, HasPar(p), r.outs[1], r.errs[1], p, D)
+      un == HasPar(p) \/ ("ConcatOverlap" \in D /\ HasOverlap(p))
+  IN \E e \in Outs(p, c.srcs[1].inp, {}, D) : SinkOKD(e, un, r.outs[1], r.errs[1], p, D)
 
 JudgeFanIn(c, r, D) ==
   LET q == c.post \o c.branches[1]
@@ -208,18 +215,22 @@ Judge(c, r, D) == IF FanIn(c) THEN JudgeFanIn(c, r, D)
                   ELSE IF FanOut(c) THEN JudgeFanOut(c, r, D)
                   ELSE JudgeLinear(c, r, D)
 
-\* "ok" | "stall" (some sink never completed) | name of the defect branch that explains it | "mismatch"
+\* "ok" | "stall" (some sink never completed) | the smallest set of defect branches that explains it
+\* (names joined by "+") | "mismatch"
+DefectSets == << <<"BatchNoDemand", {"BatchNoDemand"}>>, <<"BalanceDrop", {"BalanceDrop"}>>, <<"ConcatOverlap", {"ConcatOverlap"}>>,
+                 <<"BatchNoDemand+BalanceDrop", {"BatchNoDemand", "BalanceDrop"}>>,
+                 <<"BatchNoDemand+ConcatOverlap", {"BatchNoDemand", "ConcatOverlap"}>>,
+                 <<"BalanceDrop+ConcatOverlap", {"BalanceDrop", "ConcatOverlap"}>>,
+                 <<"BatchNoDemand+BalanceDrop+ConcatOverlap", {"BatchNoDemand", "BalanceDrop", "ConcatOverlap"}>> >>
 Verdict(c, r) ==
   IF \E b \in 1..Len(r.done) : r.done[b] # 1 THEN "stall"
   ELSE IF Judge(c, r, {}) THEN "ok"
-  ELSE IF Judge(c, r, {"BatchNoDemand"}) THEN "BatchNoDemand"
-  ELSE IF Judge(c, r, {"BalanceDrop"}) THEN "BalanceDrop"
-  ELSE IF Judge(c, r, {"BatchNoDemand", "BalanceDrop"}) THEN "BatchNoDemand+BalanceDrop"
-  ELSE "mismatch"
+  ELSE LET hits == {k \in 1..Len(DefectSets) : Judge(c, r, DefectSets[k][2])}
+       IN IF hits = {} THEN "mismatch" ELSE DefectSets[MinOf(hits)][1]
 
 \* ------------------------------------------------------------------ generator-side well-formedness
 \* after an unordered stage only order-insensitive, non-failing stages (keeps the expected bag unique)
-WellFormed(p) == \A i \in 1..Len(p) : Unordered(p[i]) => \A j \in (i + 1)..Len(p) : OrderInsensitive(p[j]) /\ ErrOf(p[j]) = 0
+WellFormed(p) == \A i \in 1..Len(p) : (Unordered(p[i]) \/ OverlapAt(p, i)) => \A j \in (i + 1)..Len(p) : OrderInsensitive(p[j]) /\ ErrOf(p[j]) = 0
 NoErr(p) == \A i \in 1..Len(p) : ErrOf(p[i]) = 0
 AllElementwise(p) == \A i \in 1..Len(p) : Elementwise(p[i])
 =============================================================================
